@@ -38,11 +38,14 @@ import (
 	"github.com/sirupsen/logrus"
 
 	"verif/harness/lib"
+	"verif/harness/quiet"
 )
 
 const waitLimit = 10 * time.Second
 
 type engine struct {
+	holdInline bool // hold-open handler makes its reference calls synchronously (see holdSched)
+
 	a   *lib.Args
 	rng *lib.Rng
 	m   *lib.Model
@@ -1059,6 +1062,9 @@ func holdMonitor(live int, out int, released bool) (string, string) {
 // holdSched runs a scheduled scenario. steps: add other rm acq rel irel disp (a step that is not
 // possible in the current observed state is skipped). The remaining goroutines are run at the end.
 func (e *engine) holdSched(steps []string, label string) {
+	if e.holdInline {
+		return // the gate-level steps do not describe this handler (reported once); hold.inflight decides
+	}
 	w := e.newHoldWorld(true)
 	defer func() { link_holdopen_controller.VerifGate = nil }()
 	var ops, trace []string
@@ -1076,16 +1082,55 @@ func (e *engine) holdSched(steps []string, label string) {
 			e.branch("quiescent")
 		}
 	}
+	// call runs one handler call. The model's steps assume that the handler only SPAWNS its
+	// reference calls (`go ref.Release()`, the acquire goroutine), so a handler call returns
+	// without waiting for a gate. A handler that makes such a call synchronously parks at the
+	// gate inside the handler call: detected through the scheduler state (the call has not
+	// returned and no goroutine is runnable), reported as a broken tie, and everything parked is
+	// let go so that the engine does not deadlock.
+	call := func(f func()) {
+		done := make(chan struct{})
+		go func() { defer close(done); f() }()
+		stamp := func() int {
+			w.mtx.Lock()
+			defer w.mtx.Unlock()
+			return len(w.acqParked) + len(w.relParked) + w.acqDone + w.relDone + w.acqSpawned + w.relSpawned
+		}
+		quiet.Settle(stamp, 150*time.Microsecond, 3, waitLimit)
+		select {
+		case <-done:
+			return
+		default:
+		}
+		fail = "a handler call is blocked at a gate inside a reference call it made synchronously (the model's steps are `go ref.Release()` and the acquire goroutine)"
+		e.holdInline = true
+		for i := 0; i < 200; i++ {
+			w.mtx.Lock()
+			ts := append(append([]*ticket{}, w.acqParked...), w.relParked...)
+			w.acqParked, w.relParked = nil, nil
+			w.mtx.Unlock()
+			for _, t := range ts {
+				close(t.release)
+			}
+			select {
+			case <-done:
+				return
+			case <-time.After(50 * time.Millisecond):
+			}
+		}
+	}
 	do := func(st string) {
 		pre := w.snapshot()
 		switch st {
 		case "add":
 			nextID++
 			liveIDs = append(liveIDs, nextID)
-			w.h.HandleValueAdded(w.inst, w.value(nextID, true))
+			id := nextID
+			call(func() { w.h.HandleValueAdded(w.inst, w.value(id, true)) })
 		case "other":
 			nextID++
-			w.h.HandleValueAdded(w.inst, w.value(nextID, false))
+			id := nextID
+			call(func() { w.h.HandleValueAdded(w.inst, w.value(id, false)) })
 		case "rm":
 			var id uint32 = 9999
 			if len(liveIDs) > 0 {
@@ -1093,7 +1138,7 @@ func (e *engine) holdSched(steps []string, label string) {
 				id = liveIDs[k]
 				liveIDs = append(liveIDs[:k], liveIDs[k+1:]...)
 			}
-			w.h.HandleValueRemoved(w.inst, w.value(id, true))
+			call(func() { w.h.HandleValueRemoved(w.inst, w.value(id, true)) })
 		case "acq":
 			w.mtx.Lock()
 			if len(w.acqParked) == 0 {
@@ -1135,7 +1180,10 @@ func (e *engine) holdSched(steps []string, label string) {
 			if _, rel := w.inst.counts(); !rel {
 				return // the instance only calls HandleInstanceDisposed after its release
 			}
-			w.h.HandleInstanceDisposed(w.inst)
+			call(func() { w.h.HandleInstanceDisposed(w.inst) })
+		}
+		if fail != "" {
+			return
 		}
 		if !w.settle() {
 			fail = "a spawned goroutine did not reach its gate"
